@@ -37,6 +37,10 @@ def parseOp (name : String) (a : List Nat) : Option Op :=
   | "mfill", [d, v, n] => some (.m (.fill d v n))
   | "mcopy", [d, s, n] => some (.m (.copy d s n))
   | "tnull", [i] => some (.t (.null i))
+  | "tref0", [i] => some (.t (.reff i 0))
+  | "tref1", [i] => some (.t (.reff i 1))
+  | "tref2", [i] => some (.t (.reff i 2))
+  | "tref3", [i] => some (.t (.reff i 3))
   | "tmove", [i, j] => some (.t (.move i j))
   | "tisnull", [i] => some (.t (.isnull i))
   | "tgrow", [n] => some (.t (.grow n))
